@@ -75,7 +75,8 @@ def r1_projections(ctx):
     ctx.analysed(fi.qual)
     tdef = lambda outs: Obj("cascade.low.core.TaskInstance", {"definition": Obj("cascade.low.core.TaskDefinition", {"output_schema": {o: "Any" for o in outs}})})
     job = Obj("cascade.low.core.JobInstance", {"tasks": {A: tdef(["0", "1", "2"]), B: tdef(["1"]), C: tdef(["0"]), "D": tdef(["0"]), "E": tdef(["0"])}, "edges": list(edges)}, name="JOB")
-    plain = [(["D"], ["D"]), ([A, B, C], [A]), (["E1", "E2"], ["E1"])]
+    # seven components of sizes 1, 3, 2, 1, 2, 1, 1 (more than any plausible pool / batch size, and not a multiple of it)
+    plain = [(["D"], ["D"]), ([A, B, C], [A]), (["E1", "E2"], ["E1"]), (["F"], ["F"]), (["G1", "G2"], ["G1"]), (["H"], ["H"]), (["I"], ["I"])]
 
     def enrich(run, a, k, n, f):
         return Obj("cascade.scheduler.core.ComponentCore", {"nodes": list(a[0][0]), "sources": list(a[0][1]), "distance_matrix": {}, "value": {}, "depth": 1})
@@ -120,8 +121,9 @@ def r1_projections(ctx):
             ctx.ok("C16.R1", loc(fi), "the component search is given every task and the task-level in/out projections of the edges")
     comps = f_.get("components")
     sizes = [len(c.fields["nodes"]) for c in comps] if isinstance(comps, list) and all(isinstance(c, Obj) for c in comps) else None
-    if sizes != [3, 2, 1]:
-        ctx.violation("C16.R2", fi.qual, loc(fi), "heaviest component first", f"components of 1, 3 and 2 tasks come out in the order {sizes}; expected heaviest first [3, 2, 1]")
+    if sizes != [3, 2, 2, 1, 1, 1, 1]:
+        ctx.violation("C16.R2", fi.qual, loc(fi), "every component kept, heaviest first",
+                      f"seven components of 1, 3, 2, 1, 2, 1, 1 tasks come out as sizes {sizes}; expected all seven, heaviest first [3, 2, 2, 1, 1, 1, 1]")
     else:
         ctx.ok("C16.R2", loc(fi), "components ordered heaviest first")
 
